@@ -77,6 +77,21 @@ def wrapper_contracts():
       ensures=['len(calls) == 1 and calls[0][0] == "contract:utils.memorize"'
                ' and calls[0][1][0] == collection and calls[0][1][1] == '
                'engine and result == calls[0][2]'], serves=('C13', 'C14'))
+    # ---- defaultIfEmpty on a sized collection: the collection itself, or
+    # the default when it has no elements -----------------------------------
+    c(Q + 'default_if_empty', name='queries.default_if_empty/seq',
+      params=dict(engine=TVal, collection=TSeq(TVal), default=TVal),
+      ensures=['implies(len(collection) == 0, val(result) == default)',
+               'implies(len(collection) > 0, val(result) == '
+               'val(collection))'])
+    # ---- flatten: scalars stay in place (base case, any length) ... --------
+    for tag, T in (('ints', TInt), ('strings', TStr)):
+        # (strings are scalars for flatten: not iterated character-wise)
+        c(C + 'flatten', name='collections.flatten/' + tag,
+          params=dict(collection=TSeq(T)), yields=T,
+          ensures=['out == collection'],
+          loops=[dict(anchor='for t in collection', index='n',
+                      invariant=['out == collection[:n]'])])
     # ---- ranges: [0, stop) and [start, stop) by step -----------------------
     c(Q + 'range_', params=dict(stop=TInt),
       ensures=['len(result.seq) == max(stop, 0)',
